@@ -85,6 +85,9 @@ func hookHandler(site string, mu *sync.Mutex) {
 	if t.quiet || (t.inParse && site != "instantiate.unlocked") {
 		return
 	}
+	if strings.HasPrefix(site, "resolve.") != (siteFilter == "resolve.") {
+		return // the yield points of resolveResolvables are for the programs of reg.go, and only they for them
+	}
 	switch site {
 	case "instantiate.checked":
 		t.inInst = true
@@ -108,6 +111,10 @@ func hookHandler(site string, mu *sync.Mutex) {
 }
 
 var debugSites = os.Getenv("C13_DEBUG_SITES") != ""
+
+// siteFilter: when set, only the yield points with this prefix park the goroutines of the running program (the
+// programs of reg.go stop at "resolve.*" only: what a Do resolves and looks at passes through the loaders' points)
+var siteFilter = ""
 
 func installHook() { verifhook.SetHandler(hookHandler) }
 
@@ -140,6 +147,17 @@ func prefixPolicy(prefix []int) policy {
 }
 
 const maxSteps = 400
+
+// runs that did not finish (deadlock, or a goroutine that blocked where there is no yield point).  Each of them is a
+// violation and leaves goroutines behind, and a blocked goroutine costs the full waiting time: after a few of
+// them the exploration stops starting new runs (stuck()).
+var unfinishedRuns = 0
+
+const maxUnfinishedRuns = 8
+
+const hangAfter = 6 * time.Second
+
+func stuck() bool { return unfinishedRuns >= maxUnfinishedRuns }
 
 func runSchedule(cfg []ldefT, prog [][]opT, pick policy) *runResult {
 	w := newWorld(cfg)
@@ -211,6 +229,8 @@ func runJobs(jobs [][]job, pick policy, before func(t *thr, ths []*thr)) *runRes
 				r := j.run(c)
 				t.results = append(t.results, r)
 				t.inOp = false
+				// (an operation that escaped with a panic may not have passed "instantiate.unlocked")
+				t.inParse, t.inInst = false, false
 				if i == len(t.jobs)-1 {
 					t.done = true
 				}
@@ -272,14 +292,17 @@ func runJobs(jobs [][]job, pick policy, before func(t *thr, ths []*thr)) *runRes
 			} else if rep.kind == 1 {
 				t.doneAt = append(t.doneAt, step)
 			}
-		case <-time.After(10 * time.Second):
-			rr.Hang = fmt.Sprintf("goroutine %d did not reach a yield point within 10s (operation %s)", t.id, t.jobs[t.opIdx].name)
+		case <-time.After(hangAfter):
+			rr.Hang = fmt.Sprintf("goroutine %d did not reach a yield point within %s (operation %s)", t.id, hangAfter, t.jobs[t.opIdx].name)
 		}
 		if rr.Hang != "" {
 			break
 		}
 	}
 	rr.Steps = len(rr.Sched)
+	if rr.Deadlock || rr.Hang != "" {
+		unfinishedRuns++
+	}
 	for _, t := range ths {
 		rr.Results = append(rr.Results, t.results)
 		rr.Parses = append(rr.Parses, t.parses)
